@@ -524,3 +524,33 @@ def check(case, ctx):
         _check_extint(case, ctx)
     else:
         raise ValueError("unknown case kind %r" % (kind,))
+
+
+# ----------------------------------------------------------------------------
+# every direct library call made by this check must leave the arrays handed
+# to it unchanged (core.GuardedCalls)
+# ----------------------------------------------------------------------------
+def _guard_targets():
+    from pyphysim.channels import multiuser
+    from pyphysim.comm import blockdiagonalization as bdm
+    t = [(bdm, n) for n in ("block_diagonalize", "calc_receive_filter")]
+    for name in ("BlockDiagonalizer", "BDWithExtIntBase", "WhiteningBD",
+                 "EnhancedBD"):
+        cls = getattr(bdm, name, None)
+        if cls is not None:
+            t += [(cls, n) for n in ("block_diagonalize",
+                                     "block_diagonalize_no_waterfilling",
+                                     "calc_receive_filter")]
+    t += [(multiuser.MultiUserChannelMatrix, "init_from_channel_matrix"),
+          (multiuser.MultiUserChannelMatrixExtInt,
+           "init_from_channel_matrix")]
+    return t
+
+
+_unguarded_check = check
+
+
+def check(case, ctx):  # noqa: F811
+    from ..core import GuardedCalls
+    with GuardedCalls(_guard_targets(), dict(part=case.get("part"))):
+        return _unguarded_check(case, ctx)
